@@ -162,3 +162,25 @@ extern "C" void h_reserved(void) {
    vp_assert(s.characters() == w.view(), 44);
    vp_done();
 }
+// reserved words and the empty word after other words: an arbitrary non-reserved word (symbolic bytes, hence a symbolic hash that the
+// solver may make equal to the hash of anything) is interned first, then a reserved word / the empty word, then the first word again:
+// the process-wide constant node every time, whatever the pool already holds under that hash code
+extern "C" void h_reserved_after(void) {
+   impl::Lexicon* lx = new impl::Lexicon;
+   static const unsigned la[] = { 1, 3, 9 };
+   SymWord a; a.make(la, 3);
+   vp_assume(a.len > 0);
+   const ipr::String& sa = lx->get_string(a.view());
+   unsigned which = vp_pick(6);
+   const impl::std_identifier* k = nullptr; unsigned n = 0;
+   for (auto& e : impl::known_words) { if (n == 0 || n == 17 || n == 31 || n == 44 || &e == &impl::known_words[std::size(impl::known_words) - 1]) { if (which-- == 0) k = &e; } ++n; }
+   if (k == nullptr) {                                           // the empty word
+      vp_assert(&lx->get_string(util::word_view()) == &ipr::String::empty_string(), 50);
+   } else {
+      const ipr::String& sr = lx->get_string(k->text());
+      vp_assert(&sr == &k->string() && sr.characters() == k->text(), 51);         // the constant, not a look-alike
+      vp_assert(&lx->get_identifier(k->text()).string() == &sr, 52);
+   }
+   vp_assert(&lx->get_string(a.view()) == &sa && content_is(sa, a), 53);
+   vp_done();
+}
